@@ -29,7 +29,7 @@ pub fn gen(o: &Opts, sink: &mut dyn FnMut(Vec<i64>, String)) {
     // 2. all 32 valid flag bytes and a sample of invalid ones, orderly close after a command
     for fl in 0..=255u32 {
         if fl >= 32 && fl % 7 != 0 { continue; }
-        for endmode in 0..3 {
+        for endmode in 0..4 {
             k += 1;
             if !mine(o, k) { continue; }
             let frames: Vec<F> = vec![(0x10, vec![fl as u8, b'v']), (0x20, vec![1])];
@@ -51,7 +51,7 @@ pub fn gen(o: &Opts, sink: &mut dyn FnMut(Vec<i64>, String)) {
         let cuts = random_cuts(&mut rng, total);
         let mut sigs = vec![];
         for i in 0..=cuts.len() { if rng.chance(1, 3) { sigs.push(i as i64); } }
-        let endmode = rng.below(3) as i64;
+        let endmode = rng.below(4) as i64;
         sink(script_case(false, &frames, tail.as_ref().map(|t| (t, tk.unwrap())), &cuts, &sigs, endmode), String::new());
     }
 }
